@@ -44,6 +44,7 @@ pub fn catalogue() -> Vec<EOp> {
         EOp::FilterIdsScan,
         EOp::TrainCycle,
         EOp::LogServed,
+        EOp::FlushIfDue,
     ]
 }
 
@@ -419,7 +420,7 @@ pub fn candidate_triples(cat: &[EOp]) -> Vec<(Vec<EOp>, Init, String)> {
                             let writes = ec.iter().any(|(a, am, b, bm)| (a == need && am != "R") || (b == need && bm != "R"));
                             // an op that takes `need` exclusively without holding anything else shows up
                             // only as a touch; approximate with "any edge or known writer kinds"
-                            if writes || matches!(cat[*ic], EOp::Ins(..) | EOp::Del(..) | EOp::BatchDel | EOp::Flush | EOp::UpdMeta(..) | EOp::BulkLoad(..)) {
+                            if writes || matches!(cat[*ic], EOp::Ins(..) | EOp::Del(..) | EOp::BatchDel | EOp::Flush | EOp::FlushIfDue | EOp::UpdMeta(..) | EOp::BulkLoad(..)) {
                                 let mut key = vec![*ia, *ib, *ic];
                                 key.sort();
                                 out.entry((key, *inita)).or_insert(why.clone());
